@@ -76,6 +76,16 @@ def mixed_specs(routes=("cls",)):
     return constrained_specs(routes, MIXED_TABLE)
 
 
+CONTAINS_TABLE = [
+    ("list", (("contains", "int"),)), ("list", (("contains", "int"), ("min_contains", "1"))),
+    ("list", (("contains", "PositiveInt"), ("max_contains", "1"))), ("tuple", (("contains", "str"),)),
+]
+
+
+def contains_specs():
+    return constrained_specs(("cls",), CONTAINS_TABLE)
+
+
 def _n(expr, origin, *cons):
     return ("n", expr, ("r", origin, tuple(cons), "cls"))
 
@@ -146,6 +156,10 @@ def generic_specs(elems=None, keys=None, depth=1):
         if a < b:
             out.append(("g", "Union", (a, b)))
             out.append(("g", "Union", (b, a)))
+    # unions whose earlier member strictly accepts instances of a later one (exact-type pass-through matters)
+    for a, b in (("float", "Decimal"), ("datetime", "date"), ("bytes", "str"), ("Decimal", "float"), ("date", "datetime"),
+                 ("str", "bytes"), ("int", "Decimal"), ("float", "int")):
+        out.append(("g", "Union", (("t", a), ("t", b))))
     out.append(("g", "Tuple", (("t", "int"),)))
     out.append(("g", "Tuple", (("t", "int"), ("t", "str"), ("t", "float"))))
     for k in keys:
